@@ -324,6 +324,81 @@ def ob_frame_transformed(op):
     return Ob("C06.frame.transformed[%s]" % op, "U", body, clause="device/dtype move keeps the parameterisation", funcs=FUNCS)
 
 
+def ob_dtype(kind, date_kind):
+    """dtype of the inputs: sampling dates written as Python ints (years, integer ages) or floats, parameters in float64: node heights,
+    branch lengths and the inverse are float64 values equal (1e-12) to the defining recursion evaluated in Python floats — nothing is
+    truncated to the dtype of the dates"""
+    def body():
+        tree = ((0, 1), ((2, 3), 4))
+        T = 5
+        names = NAMES[:T]
+        dates = {"int": [2010, 2012, 2011, 2015, 2013], "int_ages": [0, 3, 1, 0, 2], "float": [2010.0, 2012.5, 2011.25, 2015.0, 2013.75]}[date_kind]
+        x = torch.tensor([0.37, 0.52, 0.81, 7.3], dtype=torch.float64) if kind == "ratios" else torch.tensor([0.31, 0.47, 0.23, 0.61], dtype=torch.float64)
+        if kind == "heights":
+            ages0 = treemodels.ages_of([float(d) for d in dates])
+            tm, newick = treemodels.build_timetree(tree, names, dates, torch.tensor([max(ages0) + 0.37, max(ages0) + 1.21, max(ages0) + 2.43, max(ages0) + 3.07], dtype=torch.float64))
+        else:
+            tm, newick = treemodels.build_reparam(tree, names, dates, x.clone(), kind)
+        nh = tm.node_heights
+        bl = tm.branch_lengths()
+        ages = treemodels.ages_of([float(d) for d in dates])
+        nodes, root = treemodels.oracle_view(newick, names)
+        problems = []
+        if nh.dtype != torch.float64 or bl.dtype != torch.float64:
+            problems.append("node heights are %s / branch lengths %s although the parameters are float64" % (nh.dtype, bl.dtype))
+        for i in range(T):
+            if abs(float(nh[i]) - ages[i]) > 1e-12:
+                problems.append("tip %d at height %r, sampling time %r" % (i, float(nh[i]), ages[i]))
+        for c in range(2 * T - 1):
+            pnode = nodes[c]["parent"]
+            if pnode is not None:
+                want = float(nh[pnode]) - float(nh[c])
+                if abs(float(bl[c]) - want) > 1e-12 or want < -1e-12:
+                    problems.append("branch %d: length %r, parent minus child %r" % (c, float(bl[c]), want))
+        if kind != "heights":
+            # the defining recursion in Python floats
+            bounds = treemodels.bounds_of(nodes, root, ages, T)
+            xs = [float(v) for v in x]
+            want_h = {}
+            if kind == "ratios":
+                def rec(i, parent_h):
+                    if not nodes[i]["children"]:
+                        return
+                    j = i - T
+                    h = xs[j] if parent_h is None else bounds[i] + xs[j] * (parent_h - bounds[i])
+                    want_h[i] = h
+                    for ch in nodes[i]["children"]:
+                        rec(ch, h)
+                rec(root, None)
+            else:
+                def rec2(i):
+                    if not nodes[i]["children"]:
+                        return ages[i]
+                    h = max(rec2(ch) for ch in nodes[i]["children"]) + xs[i - T]
+                    want_h[i] = h
+                    return h
+                rec2(root)
+            for i, h in want_h.items():
+                if abs(float(nh[i]) - h) > 1e-11 * max(1.0, abs(h)):
+                    problems.append("internal node %d at height %r, defining recursion gives %r" % (i, float(nh[i]), h))
+            back = tm.transform.inv(nh[..., T:])
+            if back.dtype != torch.float64 or not torch.allclose(back, x, rtol=1e-11, atol=1e-12):
+                problems.append("inverse of the heights is %s (%s), parameters %s" % (back.tolist(), back.dtype, x.tolist()))
+        if problems:
+            raise Refuted("%s tree, %s dates %s: %s" % (kind, date_kind, dates, "; ".join(problems[:3])), witness={"kind": kind, "dates": dates, "problems": problems[:6]},
+                          replay={"kind": "custom", "contract": "C06", "func": "replay_dtype", "args": {"kind": kind, "date_kind": date_kind}}, confirmed=True)
+        return {"backend": "heap", "cases": 1, "statement": "%s tree with %s dates: float64 heights / branch lengths / inverse equal the defining recursion to 1e-11" % (kind, date_kind)}
+    return Ob("C06.dtype[%s,dates=%s]" % (kind, date_kind), "B", body, clause="heights are those of the defining recursion whatever the dtype the dates are written in", funcs=FUNCS)
+
+
+def replay_dtype(args):
+    try:
+        ob_dtype(args["kind"], args["date_kind"]).fn()
+    except Refuted as e:
+        return False, e.detail
+    return True, "held"
+
+
 def ob_inplace_update(kind):
     """heights follow an in-place parameter update + change notification (what the optimiser does)"""
     def body():
@@ -447,5 +522,9 @@ def obligations(tier, seed):
         obs.append(ob_frame_transformed(op))
     for kind in ("ratios", "shifts"):
         obs.append(ob_inplace_update(kind))
+        for dk in ("int", "int_ages", "float"):
+            obs.append(ob_dtype(kind, dk))
+    for dk in ("int", "int_ages", "float"):
+        obs.append(ob_dtype("heights", dk))
         obs.append(ob_reparam_history(kind, 4 if tier == 'quick' else 5))
     return obs
